@@ -58,6 +58,7 @@ def reg(spec):
 reg(Spec('C17', ['c17:C17'],
          quick=[('CORRUPT', 1500), ('ADV', 1500), ('DUPLEX', 500), ('HDR', 500)],
          thorough=[('CORRUPT', 40000), ('ADV', 40000), ('DUPLEX', 10000), ('HDR', 10000)],
+         overrides={'ADV': {'adv_plausible': 0.4}},
          rule='one evaluation = one simulated two-endpoint run (seeded workload + schedule + faults); '
               'non-trivial = at least one receive_data call on a direction that a byte/frame fault or the adversary '
               'had touched; distinct = distinct abstract traces (hash of per-step op/frame-type/outcome/event-type sequence)'))
@@ -89,6 +90,7 @@ reg(Spec('C07', ['c07:C07'],
 reg(Spec('C18', ['c18:C18'],
          quick=[('CORRUPT', 2000), ('ADV', 2000), ('DUPLEX', 300)],
          thorough=[('CORRUPT', 50000), ('ADV', 50000), ('DUPLEX', 10000)],
+         overrides={'ADV': {'adv_plausible': 0.5}},
          rule=R_RUN + 'non-trivial = at least one connection error (receive_data raised ProtocolError)' + R_DISTINCT))
 reg(Spec('C19', ['c19:C19'],
          quick=[('CLOSE', 2000), ('CORRUPT', 1000), ('ADV', 500)],
